@@ -169,6 +169,13 @@ def run_one(entry, root):
     subprocess.run(["rsync", "-a", "--exclude", ".git", REPO + "/", repo + "/"], check=True)
     for s in ("specs", "registry.json", "known_findings.json", "known"):
         os.symlink(os.path.join(VERIF, s), os.path.join(verif, s))
+    if isinstance(edits, str):
+        # a seeded change kept under /verif/seeded/<id>/patch.diff
+        a = subprocess.run(["patch", "-p1", "-s", "-i", edits], cwd=repo, capture_output=True, text=True)
+        if a.returncode != 0:
+            shutil.rmtree(d, ignore_errors=True)
+            return name, prop, expect, "stale", "patch does not apply: " + a.stdout[-200:]
+        edits = []
     for file, old, new, occ in edits:
         p = os.path.join(repo, file)
         src = open(p).read()
@@ -224,7 +231,13 @@ def main():
             sub = args.pop(0)
         else:
             props.append(a)
-    todo = [e for e in CORPUS if (not props or e[1] in props) and (not sub or sub in e[0])]
+    corpus = list(CORPUS)
+    sd = os.path.join(VERIF, "seeded")
+    for sid in sorted(os.listdir(sd)) if os.path.isdir(sd) else []:
+        pf = os.path.join(sd, sid, "patch.diff")
+        if os.path.exists(pf):
+            corpus.append(("seed-" + sid, sid.split("-")[0], "fail", pf))
+    todo = [e for e in corpus if (not props or e[1] in props) and (not sub or sub in e[0])]
     root = tempfile.mkdtemp(prefix="lungovc-selftest.", dir="/var/tmp")
     bad = 0
     try:
